@@ -81,8 +81,8 @@ func Integer(schema interface{}) parser.Func {
 			}
 			intValue, err := strconv.ParseInt(string(result), 0, 64)
 			if err != nil {
-				// This should never happen
-				panic(fmt.Sprintf("Could not convert %s to integer", string(result)))
+				// The value is out of range
+				return nil, data.EmptyIntSet, parsley.NewErrorf(pos, "invalid integer value")
 			}
 			return NewIntegerNode(schema, intValue, pos, readerPos), data.EmptyIntSet, nil
 		}
